@@ -15,6 +15,7 @@ MCIDOrder == CASE Scenario = 1 -> <<"P50", "P0", "P1", "P2", "P3", "W1", "W2", "
                [] Scenario = 7 -> <<"P0", "P1", "P2", "P3", "P4", "W1", "W2", "W3", "A1", "A2", "R1">>
                [] Scenario = 8 -> <<"P0", "P1", "P2", "P3", "W1", "W2", "W3", "A1", "R1", "C1">>
                [] Scenario = 4 -> <<"P0", "R1", "R2">>
+               [] Scenario = 10 -> <<"P0", "P1", "P2", "P3", "W1", "A1">>
                [] OTHER -> <<"P0", "P1", "P2", "P3", "W1">>
 
 T(s, t, n) == [k \in MCKeys |-> IF k = "#s" THEN s ELSE IF k = "@t" THEN t ELSE n]
@@ -126,9 +127,20 @@ Cand8 == { C("A1", Ar(<< <<"W1">>, <<"W3">> >>, T("-", "-", "x"))),      \* grow
            C("W2", Pa(<<"P0", "P3">>, T("x", "-", "-"))),                 \* new
            C("W2", Pa(<<"P0", "P3", "P2">>, T("x", "-", "-"))) }          \* grows by a point
 
-MCBase == CASE Scenario = 7 -> Base3 [] Scenario = 8 -> Base8 [] Scenario = 9 -> Base5 [] Scenario = 1 -> Base1 [] Scenario = 2 -> Base2 [] Scenario = 3 -> Base3
+\* ---- scenario 10: searchable tags removed from (or added to) base-only features that other features are validated
+\*      through, then replacements that must be rejected for a dependent (C37, C13): a tag edit copies the feature
+\*      into the overlay, which must keep finding it as a dependent of its paths and points
+Base10 == World([P0 |-> Pt(0, NT), P1 |-> Pt(1, NT), P2 |-> Pt(2, NT), P3 |-> Pt(5, NT),
+                 W1 |-> Pa(<<"P0", "P1", "P2", "P0">>, T("-", "x", "-")),
+                 A1 |-> Ar(<< <<"W1">> >>, T("y", "-", "x"))])
+Cand10 == { C("W1", Pa(<<"P0", "P1">>, NT)),                            \* opens the path under A1: reject
+            C("W1", Pa(<<"P0", "P1", "P2", "P3">>, NT)),                \* open, same length: reject
+            C("P1", Pt(3, NT)),                                         \* loop 0,3,2 clockwise: reject
+            C("P1", Pt(2, NT)),                                         \* duplicate vertex: reject
+            C("P2", Pt(4, NT)) }                                        \* loop 0,1,4 stays counter-clockwise: accept
+MCBase == CASE Scenario = 10 -> Base10 [] Scenario = 7 -> Base3 [] Scenario = 8 -> Base8 [] Scenario = 9 -> Base5 [] Scenario = 1 -> Base1 [] Scenario = 2 -> Base2 [] Scenario = 3 -> Base3
             [] Scenario = 4 -> Base4 [] Scenario = 5 -> Base5 [] Scenario = 6 -> Base5
-MCCandidates == CASE Scenario = 7 -> Cand7 [] Scenario = 8 -> Cand8 [] Scenario = 9 -> {} [] Scenario = 1 -> Cand1 [] Scenario = 2 -> Cand2 [] Scenario = 3 -> Cand3
+MCCandidates == CASE Scenario = 10 -> Cand10 [] Scenario = 7 -> Cand7 [] Scenario = 8 -> Cand8 [] Scenario = 9 -> {} [] Scenario = 1 -> Cand1 [] Scenario = 2 -> Cand2 [] Scenario = 3 -> Cand3
                   [] Scenario = 4 -> Cand4 [] Scenario = 5 -> Cand5 [] Scenario = 6 -> Cand5
 MCAddTagOps ==
    CASE Scenario = 1 -> {<<"P0", "#s", "x">>, <<"P0", "#s", "y">>, <<"P0", "n", "y">>,
@@ -144,12 +156,14 @@ MCAddTagOps ==
      [] Scenario = 7 -> {<<"P0", "n", "y">>, <<"W1", "n", "y">>, <<"P1", "n", "x">>}   \* pending plain-tag edits on base-only features
      [] Scenario = 6 -> {<<"P0", "#s", "y">>}
      [] Scenario = 9 -> {<<"P0", "n", "x">>, <<"P0", "n", "y">>, <<"W1", "n", "x">>, <<"P0", "#s", "y">>}
+     [] Scenario = 10 -> {<<"A1", "#s", "x">>, <<"W1", "#s", "y">>, <<"A1", "n", "y">>}
      [] OTHER -> {}
 MCRmTagOps ==
    CASE Scenario = 1 -> {<<"P0", "#s">>, <<"P0", "n">>, <<"A1", "#s">>, <<"A1", "n">>, <<"P3", "n">>, <<"P3", "#s">>}
      [] Scenario = 2 -> {<<"W1", "#s">>, <<"W1", "n">>, <<"R1", "#s">>, <<"R1", "n">>, <<"C1", "n">>, <<"C1", "#s">>}
      [] Scenario = 5 -> {<<"P0", "#s">>, <<"P0", "n">>}
      [] Scenario = 6 -> {<<"P0", "#s">>}
+     [] Scenario = 10 -> {<<"A1", "#s">>, <<"W1", "@t">>, <<"A1", "n">>}
      [] OTHER -> {}
 MCMaxSnaps == CASE Scenario = 5 -> 1 [] Scenario = 6 -> 2 [] Scenario = 9 -> 2 [] OTHER -> 0
 MCWithMutate == Scenario \in {2, 3, 8}
